@@ -163,7 +163,8 @@ pub fn cases(ctx: &Ctx, section: &str, unit: u64) -> Vec<Case> {
                                 })
                                 .collect();
                             if !decls.is_empty() {
-                                let t = **rng.sub("plant").pick(&decls);
+                                let mut pr = rng.sub("plant");
+                                let t = **pr.pick(&decls);
                                 let text = g.fs.files.get_mut(&t.file).unwrap();
                                 let mut lines: Vec<String> =
                                     text.split('\n').map(|s| s.to_string()).collect();
@@ -172,10 +173,55 @@ pub fn cases(ctx: &Ctx, section: &str, unit: u64) -> Vec<Case> {
                                     .chars()
                                     .take_while(|c| c.is_whitespace())
                                     .collect();
-                                lines[li] = format!(
-                                    "{indent}static const int {} = undeclared_zz ;",
-                                    atom_name(t)
-                                );
+                                // an error gadget right after a declaration that is emitted once:
+                                // the diagnostic belongs to the last zz_err_ token of the gadget
+                                let gadget: Vec<String> = match pr.below(8) {
+                                    0 => vec![format!(
+                                        "{indent}static const int zz_g0 = zz_err_undeclared ;"
+                                    )],
+                                    1 => vec![
+                                        "static const int zz_err_dup = 1 ;".into(),
+                                        "".into(),
+                                        format!("{indent}static const int zz_err_dup = 2 ;"),
+                                    ],
+                                    2 => vec![
+                                        "void zz_fn ( ) {".into(),
+                                        "int zz_err_local = 1 ;".into(),
+                                        "// between the two".into(),
+                                        format!("{indent}int zz_err_local = 2 ;"),
+                                        "}".into(),
+                                    ],
+                                    3 => vec![
+                                        "void zz_fn2 ( ) {".into(),
+                                        "int zz_ok = 1 ;".into(),
+                                        format!("{indent}zz_ok = zz_err_unknown ;"),
+                                        "}".into(),
+                                    ],
+                                    4 => vec![
+                                        "struct zz_S {".into(),
+                                        "int zz_err_m ;".into(),
+                                        format!("{indent}float zz_err_m ;"),
+                                        "} ;".into(),
+                                    ],
+                                    5 => vec![format!(
+                                        "{indent}static const int zz_g6 = zz_err_fn ( 1 ) ;"
+                                    )],
+                                    6 => vec![
+                                        "int zz_callee ( int zz_p ) { return zz_p ; }".into(),
+                                        "static const int zz_g7 = zz_callee ( 1 ,".into(),
+                                        format!("{indent}zz_err_extra ) ;"),
+                                    ],
+                                    _ => vec![
+                                        "enum zz_E {".into(),
+                                        "zz_A ,".into(),
+                                        "zz_err_dupval ,".into(),
+                                        format!("{indent}zz_err_dupval"),
+                                        "} ;".into(),
+                                    ],
+                                };
+                                for (n, gl) in gadget.into_iter().enumerate() {
+                                    lines.insert(li + 1 + n, gl);
+                                }
                                 *text = lines.join("\n");
                             }
                         }
@@ -512,6 +558,7 @@ pub fn judge(case: &Case, rep: &mut Report) {
             let m = model::run(&case.fss[task.fs], &task.faults, &task.entry, &task.defines);
             // Where does the model say the first failure is?
             let mut construct_line: Option<u32> = None;
+            let mut expected_col: Option<u32> = None;
             let (file, line, what): (String, u32, String) = match &m.verdict {
                 Verdict::Fail(f) => match (&f.kind, &f.at) {
                     // (a failing #if condition is reported where its first token was written, which may
@@ -525,6 +572,43 @@ pub fn judge(case: &Case, rep: &mut Report) {
                         return;
                     }
                 },
+                Verdict::Ok(toks) if case.kind == "diag-type" => {
+                    // the first gadget instance in the stream: from the start of the line of the
+                    // first zz_ token to the last zz_err_ token on the following lines of that file
+                    let is_zz = |t: &model::Tok| atom_name(t).starts_with("zz_");
+                    let Some(first) = toks.iter().position(is_zz) else {
+                        rep.count("type_not_judged_gadget_not_emitted", 1);
+                        return;
+                    };
+                    let (gf, gl) = (toks[first].file.clone(), toks[first].line);
+                    let mut start = first;
+                    while start > 0 && toks[start - 1].file == gf && toks[start - 1].line == gl {
+                        start -= 1;
+                    }
+                    if model::compile_form_verdict(&toks[..start]) != Some(Ok(())) {
+                        rep.count("type_not_judged_other_error_first", 1);
+                        return;
+                    }
+                    let mut end = start;
+                    while end < toks.len()
+                        && toks[end].file == gf
+                        && toks[end].line >= gl
+                        && toks[end].line <= gl + 6
+                    {
+                        end += 1;
+                    }
+                    let Some(t) = toks[start..end]
+                        .iter()
+                        .rev()
+                        .find(|t| atom_name(t).starts_with("zz_err_"))
+                    else {
+                        rep.count("type_not_judged_gadget_not_emitted", 1);
+                        return;
+                    };
+                    construct_line = Some(gl);
+                    expected_col = Some(t.col);
+                    (t.file.clone(), t.line, format!("gadget {}", atom_name(t)))
+                }
                 Verdict::Ok(toks) if task.api == Api::Compile => {
                     match model::compile_form_verdict(toks) {
                         Some(Err(i)) => {
@@ -539,10 +623,6 @@ pub fn judge(case: &Case, rep: &mut Report) {
                             });
                             if !direct {
                                 rep.count("type_not_judged_token_from_macro", 1);
-                                return;
-                            }
-                            if case.kind == "diag-type" && atom_name(t) != "undeclared_zz" {
-                                rep.count("type_not_judged_other_error_first", 1);
                                 return;
                             }
                             (t.file.clone(), t.line, format!("{:?}", t.atom))
@@ -563,7 +643,13 @@ pub fn judge(case: &Case, rep: &mut Report) {
                 rep.count("fail_not_judged_impl_ok", 1);
                 return;
             }
-            rep.count(&format!("planted_{}", what.split(['(', '"']).next().unwrap_or("").to_lowercase()), 1);
+            rep.count(
+                &format!(
+                    "planted_{}",
+                    what.split(['(', '"']).next().unwrap_or("").trim().to_lowercase().replace(' ', "_")
+                ),
+                1,
+            );
             let Some(d) = parse_diag(&r.text) else {
                 rep.findings.push(finding(
                     "diagnostic-position",
@@ -576,7 +662,7 @@ pub fn judge(case: &Case, rep: &mut Report) {
                 ));
                 return;
             };
-            if d.file != file || d.line != line {
+            if d.file != file || d.line != line || expected_col.is_some_and(|c| c != d.col) {
                 rep.findings.push(finding(
                     "diagnostic-position",
                     "wrong-file-or-line",
